@@ -370,6 +370,41 @@ _fadd = z3.Function("fadd", RealSort, RealSort, RealSort)
 _fsub = z3.Function("fsub", RealSort, RealSort, RealSort)
 _fmul = z3.Function("fmul", RealSort, RealSort, RealSort)
 _sitofp = z3.Function("sitofp", IntSort, RealSort)
+_fneg = z3.Function("fneg", RealSort, RealSort)
+
+
+def _is_const(t, value):
+    return z3.is_rational_value(t) and t.numerator_as_long() == value * t.denominator_as_long()
+
+
+def uf_neg(t):
+    """IEEE negation is exact: -(-x) = x and -c is a constant."""
+    if z3.is_rational_value(t):
+        return z3.simplify(-t)
+    if z3.is_app(t) and t.decl().eq(_fneg):
+        return t.arg(0)
+    return _fneg(t)
+
+
+def uf_add(a, b):
+    a, b = sorted((a, b), key=lambda t: t.get_id())
+    return _fadd(a, b)
+
+
+def uf_sub(a, b):
+    """x - y is by definition x + (-y) in IEEE 754: same bits (so C's `x - y` for the IR's x + -1 * y is no difference)."""
+    return uf_add(a, uf_neg(b))
+
+
+def uf_mul(a, b):
+    """-1 * y = -y and 1 * y = y exactly (finite y, signed zeros included)."""
+    for p, q in ((a, b), (b, a)):
+        if _is_const(p, -1):
+            return uf_neg(q)
+        if _is_const(p, 1):
+            return q
+    a, b = sorted((a, b), key=lambda t: t.get_id())
+    return _fmul(a, b)
 
 
 class UFAlgebra:
@@ -393,15 +428,13 @@ class UFAlgebra:
         return (a, b) if ka <= kb else (b, a)
 
     def add(self, a, b):
-        a, b = self._order(a, b)
-        return UF(_fadd(a.t, b.t))
+        return UF(uf_add(a.t, b.t))
 
     def sub(self, a, b):
-        return UF(_fsub(a.t, b.t))
+        return UF(uf_sub(a.t, b.t))
 
     def mul(self, a, b):
-        a, b = self._order(a, b)
-        return UF(_fmul(a.t, b.t))
+        return UF(uf_mul(a.t, b.t))
 
     def to_cell(self, v):
         return v.t
